@@ -25,7 +25,7 @@ class Oracle(BaseOracle):
             return
         p = self.st.proc
         self.stat("replace_succeeded")
-        base = {"op": ev["op"], "seed": self.st.seed.name, "depth": len(self.st.hist) + 1}
+        base = {"op": ev["op"], "seed": self.st.seed.name, "depth": len(self.st.hist) + 1, "where": findings.where_of(ev, p)}
         callee = ev["a"][1]["n"] if ev["op"] == "replace" else "*"
         base["callee"] = callee
         art = {"event": ev, "before": str(p), "after": str(q)}
